@@ -41,8 +41,8 @@ fn pointer_tables__lookup_returns_recorded_binding() {
     facts.expr_locals = leak_vec(vec![e(0), e(1), e(2)], arena);
     let s = |k: usize| StmtLocalBinding { stmt: &stmts[order[k]], local: LocalId(ids[order[k]]) };
     facts.stmt_locals = leak_vec(vec![s(0), s(1), s(2)], arena);
-    // segments: (node 1, segment 2), (node 0, segment 0), (node 1, segment 0)  -> ids[0], ids[1], ids[2]
-    let segs = [(1usize, 2u32), (0, 0), (1, 0)];
+    // segments (node 0, segment 2), (node 1, segment 0), (node 1, segment 1): ordering by (node, segment) and by (segment, node) differ
+    let segs = [(0usize, 2u32), (1, 0), (1, 1)];
     let g = |k: usize| StringSegmentLocalBinding { expr: &nodes[segs[order[k]].0], segment_index: segs[order[k]].1, local: LocalId(ids[order[k]]) };
     facts.string_segment_locals = leak_vec(vec![g(0), g(1), g(2)], arena);
 
@@ -54,7 +54,7 @@ fn pointer_tables__lookup_returns_recorded_binding() {
     assert!(facts.expr_local(&nodes[3]).is_none(), "post: expr_local is None for an unrecorded node");
     assert!(facts.stmt_local(&stmts[q]) == Some(LocalId(ids[q])), "post: stmt_local returns the binding recorded for that statement");
     assert!(facts.string_segment_local(&nodes[segs[q].0], segs[q].1) == Some(LocalId(ids[q])), "post: string_segment_local returns the binding recorded for (node, segment)");
-    assert!(facts.string_segment_local(&nodes[0], 2).is_none() && facts.string_segment_local(&nodes[2], 0).is_none(), "post: string_segment_local is None for an unrecorded (node, segment)");
+    assert!(facts.string_segment_local(&nodes[0], 0).is_none() && facts.string_segment_local(&nodes[2], 0).is_none() && facts.string_segment_local(&nodes[1], 2).is_none(), "post: string_segment_local is None for an unrecorded (node, segment)");
     kani::cover!(perm == 5, "cover: reverse recording order");
     std::mem::forget(facts);
 }
